@@ -348,8 +348,14 @@ class Full(Engine):
                 i = z3.If(fr_ < half, fl, z3.If(fr_ > half, fl + 1, z3.If(fl % 2 == 0, fl, fl + 1)))
                 return z3.ToReal(i) / sc
             if isinstance(v, z3.FPRef):
+                if self.mode == "bv":
+                    t = z3.fpToSBV(z3.RNE(), v, z3.BitVecSort(self.W))
+                    b = self.rbound.get(v.get_id())
+                    if b is not None and b < 2.0 ** (self.W - 3):
+                        self.mag[t.get_id()] = int(b + 1).bit_length()
+                    return t
                 i = z3.ToInt(z3.fpToReal(z3.fpRoundToIntegral(z3.RNE(), v)))
-                return z3.Int2BV(i, self.W) if self.mode == "bv" else i
+                return i
             if self.is_float_term(v):
                 # round half to even
                 fl = z3.ToInt(v)
@@ -687,6 +693,8 @@ class Full(Engine):
         if name in ("floor", "ceil", "trunc"):
             if isinstance(x, z3.FPRef):
                 rm = {"floor": z3.RTN(), "ceil": z3.RTP(), "trunc": z3.RTZ()}[name]
+                if self.mode == "bv":
+                    return z3.fpToSBV(rm, x, z3.BitVecSort(self.W))
                 i = z3.ToInt(z3.fpToReal(z3.fpRoundToIntegral(rm, x)))
             else:
                 i = {"floor": lambda: z3.ToInt(x), "ceil": lambda: -z3.ToInt(-x),
